@@ -33,6 +33,7 @@ import (
 	"strconv"
 	"strings"
 	"sync"
+	"sync/atomic"
 	"testing"
 	"time"
 
@@ -169,6 +170,8 @@ type evNode struct {
 	unpark   bool // a held poll has been released and not yet served
 	rQueue   []string
 	rCur     string
+	rHead    bool // the current request's head read was served
+	rRcpt    bool // the current request's receipt read was served
 	rDone    bool
 	rMid     []evStep
 	mid      []evMid
@@ -513,11 +516,13 @@ func (e *evEth) GetBlockByNumber(ctx context.Context, tag string, full bool) (ma
 	resp := map[string]interface{}{"number": (*hexutil.Big)(new(big.Int).SetUint64(num)), "hash": n.blkHash(num, n.canon(num))}
 	switch {
 	case n.phase == 2:
-		if len(n.rQueue) > 0 {
-			n.rCur = n.rQueue[0]
+		if len(n.rQueue) > 0 && (n.rCur == "" || n.rHead) {
+			// a head read that does not belong to the request in progress starts the next request
+			n.rCur, n.rHead, n.rRcpt = n.rQueue[0], false, false
 			n.rQueue = n.rQueue[1:]
 			n.emit("R_Req", map[string]interface{}{"tx": n.rCur}, nil)
 		}
+		n.rHead = true
 		if n.fails("rhead") {
 			n.emit("R_Head", map[string]interface{}{"tag": tag, "ok": false, "n": 0}, nil)
 			if n.rCur == "t0" {
@@ -531,6 +536,8 @@ func (e *evEth) GetBlockByNumber(ctx context.Context, tag string, full bool) (ma
 				n.applyEnv(st)
 			}
 			n.rMid = nil
+		} else if n.rRcpt {
+			n.rDone = true
 		}
 		return resp, nil
 	case !n.initDone:
@@ -590,16 +597,17 @@ func (e *evEth) GetTransactionReceipt(ctx context.Context, h ethcommon.Hash) (*e
 	ev, kind := "H_Receipt", "hreceipt"
 	if n.phase == 2 {
 		ev, kind = "R_Receipt", "rreceipt"
-		if len(n.rQueue) > 0 && n.rQueue[0] == tx && n.rCur != tx {
+		if len(n.rQueue) > 0 && n.rQueue[0] == tx && (n.rCur != tx || n.rRcpt) {
 			// the handler asked for the receipt of a request whose head read we have not seen
-			n.rCur = tx
+			n.rCur, n.rHead, n.rRcpt = tx, false, false
 			n.rQueue = n.rQueue[1:]
 			n.emit("R_Req", map[string]interface{}{"tx": tx}, nil)
 		}
+		n.rRcpt = true
 	}
 	after := func() {
 		if n.phase == 2 {
-			if tx == "t0" {
+			if tx == "t0" && n.rHead {
 				n.rDone = true
 			}
 			return
@@ -782,7 +790,12 @@ func (r *evRun) waitFor(cond func() bool) bool {
 	}
 }
 
+var evStalls int32
+
 func (r *evRun) line(ev string, a map[string]interface{}, s map[string]interface{}) {
+	if ev == "Stall" || ev == "Timeout" {
+		atomic.AddInt32(&evStalls, 1)
+	}
 	r.n.mu.Lock()
 	r.n.drain()
 	r.n.emit(ev, a, s)
@@ -863,6 +876,8 @@ func (r *evRun) unpark() {
 		close(n.parkCh)
 	}
 	n.mu.Unlock()
+	// the released head read is answered before anything else happens
+	r.waitFor(func() bool { n.mu.Lock(); defer n.mu.Unlock(); return !n.unpark })
 }
 
 func (r *evRun) pushLog(st evStep) bool {
@@ -930,6 +945,7 @@ func (r *evRun) reobserve(st evStep) bool {
 	n.phase = 2
 	n.txHash(tx)
 	n.rQueue = []string{tx, "t0"}
+	n.rCur, n.rHead, n.rRcpt = "", false, false
 	n.rDone = false
 	n.rMid = nil
 	for _, m := range st.Mid {
@@ -1108,8 +1124,14 @@ func TestVerifEvmReplay(t *testing.T) {
 	}
 	defer tr.Close()
 	_ = hex.EncodeToString
+	ran := 0
 	for _, sc := range scs {
+		// every stall costs the full deadline: after a few of them the verdict is clear, do not wait for hours
+		if atomic.LoadInt32(&evStalls) >= 4 {
+			break
+		}
 		evRunScenario(t, tr, sc)
+		ran++
 	}
-	fmt.Printf("VERIF-REPLAYED scenarios=%d lines=%d\n", len(scs), tr.n)
+	fmt.Printf("VERIF-REPLAYED scenarios=%d of %d lines=%d\n", ran, len(scs), tr.n)
 }
